@@ -32,10 +32,13 @@ ASSUMPTIONS = [
     "thread schedules are explored at source-line granularity plus lock boundaries, 2 threads x 1-3 operations; counter updates outside the lock can only be lost at bytecode granularity",
 ]
 MIN_NONTRIVIAL_FRACTION = 0.3
+CASE_CPU_S = 60                 # "every ingest, digest and autophagy call returns": a call that burns a minute of CPU on a handful of items does not
+CPU_SIGNATURE = "hang:cpu-bound-exceeded:in-process"
 RULE += " Added after the seeded rounds: " + 'Raising digesters raise one of 16 exception types.'
 RULE += ' Clock gaps up to two days.'
 RULE += ' Bookkeeping calls between operations (get_statistics, clear_recycling_bin, get_recycled).'
 RULE += ' Equal-valued items: an ingest variant adds an item equal in every field to earlier ones (Waste compares by value); the accounting attributes a processed copy to the oldest copy still unaccounted for.'
+RULE += " `builtin` cases (1/10 generated + a table of 4 configurations x 4 types x 14 content shapes x 3 continuations) use the lysosome's own per-type digesters on arbitrary content: mis-typed fields, cyclic dicts and lists, objects with cleanup() (also raising, nested, self-referential), deep and big values; accounting by counts (ingested = queued + digested + errors + expired + emergency-dropped, the last only growing in an ingest at capacity), cleanup() at most once per resource. A call that burns 60 s of CPU is a finding (per-case CPU guard)."
 EXHAUSTIVE_NOTE = {"quick": "all op sequences of length 1..3 over 13 ops x 4 configurations (4*(13+169+2197) = 9516), complete",
                    "thorough": "all op sequences of length 1..4 over 13 ops x 4 configurations (4*(13+169+2197+28561) = 123760), complete"}
 
@@ -62,7 +65,24 @@ _top = st.one_of(
 ).map(list)
 
 
+SHAPES = ["id", "raw-int", "raw-long", "error-object", "cyclic-dict", "cyclic-list", "cleanup", "cleanup-raises", "cleanup-nested", "cleanup-cyclic",
+          "none", "text", "deep", "big"]
+_bop = st.one_of(
+    st.tuples(st.just("ingest"), st.integers(0, 3), st.sampled_from(SHAPES)),
+    st.tuples(st.just("ingest"), st.just(3), st.sampled_from(SHAPES)),
+    st.tuples(st.just("digest"), st.sampled_from([None, None, 1, 2])),
+    st.tuples(st.just("autophagy")),
+    st.tuples(st.just("adv"), st.sampled_from([17, 41, 61])),
+).map(list)
+
+
 def strategy(tier):
+    # `builtin`: no custom digesters - the lysosome's own per-type digesters look into the items' content (any Python object is legal content)
+    builtin = st.fixed_dictionaries({"builtin": st.just(True), "cfg": _cfg, "ops": st.lists(_bop, min_size=1, max_size=14)})
+    return st.integers(0, 9).flatmap(lambda k: builtin if k == 0 else _strategy_main())
+
+
+def _strategy_main():
     hist = st.fixed_dictionaries({"cfg": _cfg, "ops": st.lists(_op, min_size=1, max_size=30)})
     sched = st.fixed_dictionaries({"cfg": _cfg, "pre": st.integers(0, 6),
                                    "threads": st.lists(st.lists(_top, min_size=1, max_size=3), min_size=2, max_size=2),
@@ -76,6 +96,11 @@ _ENUM_OPS = [["ingest", 0, False], ["ingest", 1, True], ["ingest", 2, False], ["
 
 
 def enumerate_cases(tier):
+    for cfg in _ENUM_CFG:
+        for t in range(4):
+            for shape in SHAPES:
+                for tail in ([["digest", None]], [["ingest", 1, "id"], ["ingest", 2, "id"], ["ingest", 0, "id"]], [["adv", 61], ["autophagy"], ["digest", None]]):
+                    yield {"builtin": True, "cfg": cfg, "ops": [["ingest", t, shape]] + tail}
     depth = 4 if tier == "thorough" else 3
     for cfg in _ENUM_CFG:
         for d in range(1, depth + 1):
@@ -184,6 +209,131 @@ def _error_counters(stats):
     return sum(v for k, v in stats.items() if isinstance(v, int) and not isinstance(v, bool) and ("error" in k.lower() or "fail" in k.lower()))
 
 
+class _Res:
+    def __init__(self, raises=False, child=None):
+        self.cleaned = 0
+        self.raises = raises
+        self.child = child
+
+    def cleanup(self):
+        self.cleaned += 1
+        if self.raises:
+            raise OSError("cleanup failed")
+
+
+def _shape(name, k):
+    """content of an item: any Python object is legal"""
+    if name == "id":
+        return {"id": k}, []
+    if name == "raw-int":
+        return {"raw_input": 5, "error": 7}, []
+    if name == "raw-long":
+        return {"raw_input": "x" * 5000, "error": ValueError("boom " * 100), "error_type": ["unhashable"]}, []
+    if name == "error-object":
+        return {"error_type": "timeout", "context": {"nested": [1, 2, {"k": k}]}, "error": None}, []
+    if name == "cyclic-dict":
+        d_ = {"id": k}
+        d_["self"] = d_
+        d_["context"] = d_
+        return d_, []
+    if name == "cyclic-list":
+        l_ = [k]
+        l_.append(l_)
+        return l_, []
+    if name == "cleanup":
+        r = _Res()
+        return r, [r]
+    if name == "cleanup-raises":
+        r = _Res(raises=True)
+        return r, [r]
+    if name == "cleanup-nested":
+        rs = [_Res(), _Res()]
+        return {"resources": rs, "more": (rs[0],)}, rs
+    if name == "cleanup-cyclic":
+        r = _Res()
+        r.child = {"parent": r, "again": [r]}
+        reg = {"root": r}
+        reg["registry"] = reg
+        return reg, [r]
+    if name == "none":
+        return None, []
+    if name == "text":
+        return "orphan %d" % k, []
+    if name == "deep":
+        cur = {"id": k}
+        for _ in range(60):
+            cur = {"inner": cur, "raw_input": "r"}
+        return cur, []
+    if name == "big":
+        return {"raw_input": list(range(10000)), "items": [{"i": i} for i in range(2000)]}, []
+    raise HarnessError("unknown shape %r" % (name,))
+
+
+def _judge_builtin(case, out, clock, lys_mod, real_waste):
+    """the lysosome's own digesters on arbitrary content; items are not identifiable here, so the accounting is by counts:
+    ingested = queued + digested + digestion errors + expired, after every call"""
+    cfg = case["cfg"]
+    WT = lys_mod.WasteType
+    types = [WT.MISFOLDED_PROTEIN, WT.EXPIRED_CACHE, WT.FAILED_OPERATION, WT.ORPHANED_RESOURCE]
+    lys = lys_mod.Lysosome(max_queue_size=cfg["max_q"], auto_digest_threshold=cfg["auto"], retention_hours=1.0, silent=True)
+    resources = []
+    ingested = expired = dropped = 0
+    out.label("builtin-digesters")
+    for i, op in enumerate(case["ops"]):
+        name = op[0]
+        if name == "adv":
+            clock.advance(op[1] * 60)
+            continue
+        at_capacity = lys.get_statistics()["queue_size"] >= cfg["max_q"]
+        try:
+            if name == "ingest":
+                content, res = _shape(op[2], i)
+                resources += res
+                if op[2] != "id":
+                    out.nontrivial = True
+                lys.ingest(real_waste(waste_type=types[op[1]], content=content, source="t", created_at=clock.now()))
+                ingested += 1
+            elif name == "digest":
+                lys.digest(op[1])
+            elif name == "autophagy":
+                expired += lys.autophagy()
+            else:
+                raise HarnessError("unknown op %r" % (op,))
+        except HarnessError:
+            raise
+        except SelfDeadlock as e:
+            out.fail("hang:%s:self-deadlock:builtin" % name, "%s never returns: %s" % (name, e), {"step": i, "op": op, "cfg": cfg})
+            return
+        except Exception as e:
+            out.fail("raise:%s:%s:builtin" % (type(e).__name__, name), "%s raised %s: %s" % (name, type(e).__name__, str(e)[:120]), {"step": i, "op": op, "cfg": cfg})
+            return
+        st1 = lys.get_statistics()
+        d = {"step": i, "op": op, "cfg": cfg, "stats": {k_: st1[k_] for k_ in ("queue_size", "total_ingested", "total_digested", "total_errors")}, "expired": expired}
+        if st1["queue_size"] > cfg["max_q"]:
+            out.fail("queue:over-capacity", "queue holds %d > max_queue_size %d" % (st1["queue_size"], cfg["max_q"]), d)
+            return
+        if st1["total_ingested"] != ingested:
+            out.fail("accounting:ingested-counter", "total_ingested %d, items ingested %d" % (st1["total_ingested"], ingested), d)
+            return
+        # items in none of the counted categories: only an ingest that found the queue at capacity may add to them ("emergency-dropped")
+        u = ingested - (st1["queue_size"] + st1["total_digested"] + st1["total_errors"] + expired)
+        if u < 0:
+            out.fail("accounting:items-counted-twice:builtin", "%d ingested but %d queued + %d digested + %d errors + %d expired"
+                     % (ingested, st1["queue_size"], st1["total_digested"], st1["total_errors"], expired), d)
+            return
+        if u > dropped and not (name == "ingest" and at_capacity):
+            out.fail("accounting:items-unaccounted:builtin", "%d ingested = %d queued + %d digested + %d errors + %d expired + %d dropped earlier does not add up after %s"
+                     % (ingested, st1["queue_size"], st1["total_digested"], st1["total_errors"], expired, dropped, name), d)
+            return
+        if u > dropped:
+            out.label("emergency-dropped")
+        dropped = u
+        twice = [r for r in resources if r.cleaned > 1]
+        if twice:
+            out.fail("orphaned-resource-cleaned-twice", "cleanup() of an orphaned resource ran %d times" % twice[0].cleaned, d)
+            return
+
+
 def judge(case):
     if "threads" in case:
         from pbt.props import _c13_sched
@@ -203,7 +353,10 @@ def judge(case):
         lys_mod.Waste = waste_factory
         daemon_mod.Waste = waste_factory        # the daemon builds its own Waste; stamp it with the virtual time as well
         try:
-            _judge(case, out, clock, lys_mod, real_waste)
+            if case.get("builtin"):
+                _judge_builtin(case, out, clock, lys_mod, real_waste)
+            else:
+                _judge(case, out, clock, lys_mod, real_waste)
         finally:
             lys_mod.Waste = real_waste
             daemon_mod.Waste = real_waste
